@@ -91,6 +91,12 @@ class IRProp(Prop):
                 dis.append({"seed": sd, "mods": repr(case.mods), "model_only": sorted(a - b)[:8], "implementation_only": sorted(b - a)[:8]})
             elif len(samples) < 4 and case.mods:
                 samples.append({"seed": sd, "mods": repr(case.mods)[:200], "agreed_state": impl[:300]})
+        # the comparison lives on rewrites that finish: on the unchanged tree between 2 and 11 percent of the generated cases are refused
+        # (overlapping requests, a label the same rewrite removed); a tree on which a quarter or more are refused has lost the inputs
+        nerr = sum(dist["impl_errors"].values())
+        if runs and nerr * 4 >= len(runs):
+            dis.insert(0, {"seed": "-", "mods": "-", "model_only": [f"at most 11% of the generated rewrites are refused (unchanged tree)"],
+                           "implementation_only": [f"{nerr} of {len(runs)} generated rewrites raise: {dist['impl_errors']}"]})
         return dict(evaluations=len(lines), distinct_nontrivial=len(nontriv), samples=samples, disagreements=dis[:20], dist=dist)
 
     observe = None      # optional callback(module, built, rec) evaluated when the modify cache is left (before intervals are re-joined)
